@@ -15,7 +15,7 @@ def CommitPost (w : Writer) (r : Res Integrity) (fs' : FS) : Prop :=
   ∀ sri, r = Except.ok sri →
     let wsri := Sri.compute cfg.H w.algo w.hashed
     sri = (if w.key.isSome then w.opts.sri.getD wsri else wsri) ∧ (w.opts.sri = none → sri = wsri) ∧
-    (∀ s, w.opts.sri = some s → (Sri.matchesSri s wsri).isSome) ∧
+    (∀ s, w.opts.sri = some s → (Sri.declaredOk s wsri).isSome) ∧
     (∀ n, w.opts.size = some n → n = w.written) ∧
     ∃ cpath, contentPath cache wsri = some cpath ∧ (fs'.get cpath).isSome
 
@@ -30,7 +30,7 @@ theorem existsFollow_get {fs : FS} {p : Path} (hp : p ≠ []) (h : fs.existsFoll
 theorem commitChecks_ok {w : Writer} {wsri recorded : Integrity}
     (h : commitChecks w wsri = .ok recorded) :
     recorded = w.opts.sri.getD wsri ∧ (w.opts.sri = none → recorded = wsri) ∧
-    (∀ s, w.opts.sri = some s → (Sri.matchesSri s wsri).isSome) ∧
+    (∀ s, w.opts.sri = some s → (Sri.declaredOk s wsri).isSome) ∧
     (∀ n, w.opts.size = some n → n = w.written) := by
   unfold commitChecks commitChecks.sizeCheck at h
   split at h
@@ -38,8 +38,8 @@ theorem commitChecks_ok {w : Writer} {wsri recorded : Integrity}
     split at h
     · cases h
     · rename_i hm
-      have hm' : (Sri.matchesSri s wsri).isSome := by
-        cases hx : Sri.matchesSri s wsri <;> simp [hx] at hm ⊢
+      have hm' : (Sri.declaredOk s wsri).isSome := by
+        cases hx : Sri.declaredOk s wsri <;> simp [hx] at hm ⊢
       split at h
       · rename_i n hn
         split at h
@@ -137,7 +137,7 @@ def StreamPost (key : Option Bytes) (o : WriteOpts) (chunks : List Bytes) (r : R
   ∀ sri, r = Except.ok sri →
     let wsri := Sri.compute cfg.H (o.algo.getD .sha256) chunks.flatten
     sri = (if key.isSome then o.sri.getD wsri else wsri) ∧ (o.sri = none → sri = wsri) ∧
-    (∀ s, o.sri = some s → (Sri.matchesSri s wsri).isSome) ∧
+    (∀ s, o.sri = some s → (Sri.declaredOk s wsri).isSome) ∧
     (∀ n, o.size = some n → n = chunks.flatten.length) ∧
     ∃ cpath, contentPath cache wsri = some cpath ∧ (fs'.get cpath).isSome
 
